@@ -15,7 +15,7 @@ use rustrtc::transports::dtls::{Certificate, fingerprint, generate_certificate};
 use std::collections::VecDeque;
 
 #[derive(Clone, Debug, PartialEq)]
-pub enum Act { Drop, Dup, Swap, FlipBody(u16), CertOther, CertEmpty, CertGarbage, Resign, CertOtherResign, FlipSig, FlipKey, FlipRandom, StripExt(u16), FlipCipher, Fragment(u16), FragDupMid(u16), FragReorder(u16), SeqMinus1, Impostor, ImpostorChain, ExtraCert, RefragTailLost(u16), RefragEvery3(u16), PreInject(u8), ForgeFinishedBad, InsertCert, RefragOverlap(u16), InsertHs(u8), PreInjectHs(u8), CloseClient, CloseServer, AtkSke, InsertHsBefore(u8), RepeatSame }
+pub enum Act { Drop, Dup, Swap, FlipBody(u16), CertOther, CertEmpty, CertGarbage, Resign, CertOtherResign, FlipSig, FlipKey, FlipRandom, StripExt(u16), FlipCipher, Fragment(u16), FragDupMid(u16), FragReorder(u16), SeqMinus1, Impostor, ImpostorChain, ExtraCert, RefragTailLost(u16), RefragEvery3(u16), PreInject(u8), ForgeFinishedBad, InsertCert, RefragOverlap(u16), InsertHs(u8), PreInjectHs(u8), CloseClient, CloseServer, AtkSke, InsertHsBefore(u8), RepeatSame, DropN(u8), PreInject3(u8), ImpostorKey(u8) }
 
 #[derive(Clone, Debug, PartialEq)]
 pub struct Rule { pub from_client: bool, pub typ: u8, pub act: Act }
@@ -35,7 +35,8 @@ impl Script {
             Act::ExtraCert => "extracert".into(), Act::RefragTailLost(n) => format!("refragtaillost{n}"), Act::RefragEvery3(n) => format!("refragevery{n}"),
             Act::PreInject(ct) => format!("preinject{ct}"), Act::ForgeFinishedBad => "forgefinishedbad".into(), Act::InsertCert => "insertcert".into(), Act::InsertHs(t) => format!("inserths{t}"), Act::PreInjectHs(t) => format!("prehs{t}"),
             Act::CloseClient => "closeclient".into(), Act::CloseServer => "closeserver".into(), Act::AtkSke => "atkske".into(),
-            Act::InsertHsBefore(t) => format!("insertbefore{t}"), Act::RepeatSame => "repeatsame".into(), Act::RefragOverlap(n) => format!("refragoverlap{n}") })).collect();
+            Act::InsertHsBefore(t) => format!("insertbefore{t}"), Act::RepeatSame => "repeatsame".into(), Act::DropN(n) => format!("dropfirst{n}"),
+            Act::PreInject3(ct) => format!("preinjectthird{ct}"), Act::ImpostorKey(k) => format!("impostorkey{k}"), Act::RefragOverlap(n) => format!("refragoverlap{n}") })).collect();
         format!("ce={} se={} {}", self.ce, self.se, if rs.is_empty() { "-".into() } else { rs.join(";") })
     }
     pub fn parse(s: &str) -> Script {
@@ -52,7 +53,8 @@ impl Script {
                 "flipkey" => Act::FlipKey, "fliprandom" => Act::FlipRandom, "flipcipher" => Act::FlipCipher, "seqminus1" => Act::SeqMinus1, "forgefinishedbad" => Act::ForgeFinishedBad, "insertcert" => Act::InsertCert, "closeclient" => Act::CloseClient, "closeserver" => Act::CloseServer, "atkske" => Act::AtkSke, "repeatsame" => Act::RepeatSame, "impostor" => Act::Impostor, "impostorchain" => Act::ImpostorChain, "extracert" => Act::ExtraCert,
                 x if x.starts_with("flipbody") => Act::FlipBody(num("flipbody")), x if x.starts_with("strip") => Act::StripExt(num("strip")),
                 x if x.starts_with("preinject") => Act::PreInject(num("preinject") as u8),
-                x if x.starts_with("refragtaillost") => Act::RefragTailLost(num("refragtaillost")), x if x.starts_with("refragevery") => Act::RefragEvery3(num("refragevery")), x if x.starts_with("refragoverlap") => Act::RefragOverlap(num("refragoverlap")), x if x.starts_with("inserths") => Act::InsertHs(num("inserths") as u8), x if x.starts_with("insertbefore") => Act::InsertHsBefore(num("insertbefore") as u8), x if x.starts_with("prehs") => Act::PreInjectHs(num("prehs") as u8),
+                x if x.starts_with("refragtaillost") => Act::RefragTailLost(num("refragtaillost")), x if x.starts_with("refragevery") => Act::RefragEvery3(num("refragevery")), x if x.starts_with("refragoverlap") => Act::RefragOverlap(num("refragoverlap")), x if x.starts_with("inserths") => Act::InsertHs(num("inserths") as u8), x if x.starts_with("insertbefore") => Act::InsertHsBefore(num("insertbefore") as u8), x if x.starts_with("dropfirst") => Act::DropN(num("dropfirst") as u8),
+                x if x.starts_with("preinjectthird") => Act::PreInject3(num("preinjectthird") as u8), x if x.starts_with("impostorkey") => Act::ImpostorKey(num("impostorkey") as u8), x if x.starts_with("prehs") => Act::PreInjectHs(num("prehs") as u8),
                 x if x.starts_with("fragdup") => Act::FragDupMid(num("fragdup")), x if x.starts_with("fragreorder") => Act::FragReorder(num("fragreorder")),
                 x if x.starts_with("frag") => Act::Fragment(num("frag")), x => panic!("bad act {x}") };
             rules.push(Rule { from_client: p[0] == "c>s", typ: p[1].parse().unwrap(), act });
@@ -142,7 +144,8 @@ fn apply(act: &Act, dg: &[u8], atk: &Attacker, randoms: &(Vec<u8>, Vec<u8>), occ
                 b.truncate(i); b.extend_from_slice(&(out.len() as u16).to_be_bytes()); b.extend_from_slice(&out);
             } })],
         Act::FlipCipher => { let mut d = dg.to_vec(); let n = d.len(); d[n - 20] ^= 1; vec![d] }
-        Act::Impostor | Act::ImpostorChain | Act::ExtraCert | Act::ForgeFinishedBad | Act::InsertHs(_) | Act::PreInjectHs(_) | Act::CloseClient | Act::CloseServer | Act::AtkSke | Act::InsertHsBefore(_) | Act::RepeatSame => vec![dg.to_vec()], // handled by the proxy loop
+        Act::Impostor | Act::ImpostorChain | Act::ExtraCert | Act::ForgeFinishedBad | Act::InsertHs(_) | Act::PreInjectHs(_) | Act::CloseClient | Act::CloseServer | Act::AtkSke | Act::InsertHsBefore(_) | Act::RepeatSame | Act::PreInject3(_) | Act::ImpostorKey(_) => vec![dg.to_vec()], // handled by the proxy loop
+        Act::DropN(_) => vec![], // the first n occurrences are lost (persistent rule, see the proxy loop)
         Act::InsertCert => {
             // a second Certificate message (the attacker's certificate), in sequence right after the genuine one;
             // the proxy renumbers the rest of the flight (see `seq_shift`)
@@ -244,8 +247,16 @@ pub async fn run_script(sc: &Script) -> Option<Outcome> { run_script_ticks(sc, 0
 /// `max_ticks`: how many retransmission-timer rounds (real seconds) the network stays quiet-but-alive
 /// after the scripted faults, so the endpoints can recover (C11)
 pub async fn run_script_ticks(sc: &Script, max_ticks: u32) -> Option<Outcome> {
-    let (cc, scert) = certs();
+    let (cc, mut scert) = certs();
     let atk = Attacker::new();
+    // a peer whose certificate has a key of another type (1 = RSA-2048, 2 = ECDSA P-384; static self-signed certificates whose
+    // private keys nobody in the run holds): it presents that public certificate — which the client pins — and signs with an
+    // unrelated P-256 key
+    if let Some(k) = sc.rules.iter().find_map(|r| match r.act { Act::ImpostorKey(k) => Some(k), _ => None }) {
+        let der: &[u8] = if k == 1 { include_bytes!("c03/certs/rsa.der") } else { include_bytes!("c03/certs/p384.der") };
+        let mut c = Certificate::default(); c.certificate = vec![der.to_vec()]; c.private_key = atk.cert.private_key.clone();
+        scert = c;
+    }
     let bogus = fingerprint(&atk.cert);
     let exp = |c: char, peer: &Certificate| expected_variant(c, peer, &bogus);
     let (exp_c, exp_s) = (exp(sc.ce, &scert), exp(sc.se, &cc));
@@ -255,7 +266,8 @@ pub async fn run_script_ticks(sc: &Script, max_ticks: u32) -> Option<Outcome> {
     //  impostorchain  presents [attacker certificate, genuine certificate] and signs with the attacker's key
     //  extracert      the genuine server, presenting [genuine certificate, some other certificate] (must still connect)
     let has = |a: Act| sc.rules.iter().any(|r| r.act == a);
-    let scert = if has(Act::Impostor) {
+    let scert = if false { scert
+    } else if has(Act::Impostor) {
         let mut c = Certificate::default(); c.certificate = scert.certificate.clone(); c.private_key = atk.cert.private_key.clone(); c
     } else if has(Act::ImpostorChain) {
         let mut c = Certificate::default(); c.certificate = vec![atk.cert.certificate[0].clone(), scert.certificate[0].clone()];
@@ -277,6 +289,7 @@ pub async fn run_script_ticks(sc: &Script, max_ticks: u32) -> Option<Outcome> {
     let (mut forged, mut seq_shift, mut inserted_cert) = (false, 0u16, false);
     let mut pending_shift = 0u16;
     let (mut second_cert, mut replaced_ske, mut foreign_cert_first) = (false, false, false);
+    let mut third_party: Option<(u8, u8)> = None;
     let mut done2 = vec![false; sc.rules.len()];
     let mut held: (Option<Vec<u8>>, Option<Vec<u8>>) = (None, None);
     let mut randoms = (vec![], vec![]);
@@ -324,10 +337,12 @@ pub async fn run_script_ticks(sc: &Script, max_ticks: u32) -> Option<Outcome> {
         DIR_HINT.with(|d| d.set(from_client));
         let mut outs = vec![dg.clone()];
         let mut swap = false;
+        let mut applied_now: Vec<usize> = vec![];
         for (i, r) in sc.rules.iter().enumerate() {
             if !used[i] && r.from_client == from_client && r.typ == k {
-                let persistent = matches!(r.act, Act::RefragTailLost(_) | Act::RefragEvery3(_) | Act::RefragOverlap(_));
+                let persistent = matches!(r.act, Act::RefragTailLost(_) | Act::RefragEvery3(_) | Act::RefragOverlap(_)) || matches!(r.act, Act::DropN(n) if occ[i] + 1 < n as usize);
                 if !persistent { used[i] = true; }
+                applied_now.push(i);
                 if r.act == Act::Swap { swap = true; } else { outs = outs.iter().flat_map(|d| apply(&r.act, d, &atk, &randoms, occ[i])).collect(); }
                 occ[i] += 1;
             }
@@ -361,11 +376,22 @@ pub async fn run_script_ticks(sc: &Script, max_ticks: u32) -> Option<Outcome> {
             t => seen.get(&t).cloned() } };
         let (mut pre, mut post): (Vec<Vec<u8>>, Vec<Vec<u8>>) = (vec![], vec![]);
         let mut shift_now = 0u16;
+        let mut requeued = false;
         for (i, r) in sc.rules.iter().enumerate() {
             if r.from_client != from_client || r.typ != k || done2[i] { continue; }
             match r.act {
                 // a clear-text handshake message of another type, at exactly the message_seq the target expects next, just
                 // before this datagram (each message type is also offered to the role that never receives it)
+                // a HelloVerifyRequest to the client: it answers with a fresh ClientHello, so the datagram it was injected in front of is
+                // put back and handled after that ClientHello went out (keeps the order a real cookie exchange has)
+                Act::PreInjectHs(3) if !from_client && !requeued => {
+                    done2[i] = true;
+                    let b = body_for(3, &seen).unwrap_or_default();
+                    let hvr = record_bytes(22, (254, 253), 0, 93, &hs_bytes(3, b.len() as u32, next_seq_of_target, 0, &b));
+                    for x in c.inject(&hvr, c_src).await { q_cs.push_back(x); }
+                    q_sc.push_front(dg.clone());
+                    requeued = true;
+                }
                 Act::PreInjectHs(t) => {
                     done2[i] = true;
                     if let Some(b) = body_for(t, &seen) {
@@ -413,11 +439,21 @@ pub async fn run_script_ticks(sc: &Script, max_ticks: u32) -> Option<Outcome> {
                         pending_shift += 1;
                     } }
                 }
+                // a clear-text record from a THIRD source address just before this datagram (handshake phase × foreign address)
+                Act::PreInject3(ct) => {
+                    done2[i] = true;
+                    let payload: Vec<u8> = match ct { 21 => vec![1, 0], 20 => vec![1], 22 => hs_bytes(20, 12, next_seq_of_target, 0, &[0x5A; 12]), _ => b"clear-text application data".to_vec() };
+                    let rec = record_bytes(ct, (254, 253), 0, 98, &payload);
+                    let third: std::net::SocketAddr = "127.0.0.9:4444".parse().unwrap();
+                    third_party = Some((ct, k));
+                    if from_client { for x in s.inject(&rec, third).await { q_sc.push_back(x); } } else { for x in c.inject(&rec, third).await { q_cs.push_back(x); } }
+                }
                 Act::CloseClient => { done2[i] = true; for x in c.close().await { q_cs.push_back(x); } }
                 Act::CloseServer => { done2[i] = true; for x in s.close().await { q_sc.push_back(x); } }
                 _ => {}
             }
         }
+        if requeued { for i in applied_now { used[i] = false; occ[i] -= 1; } continue; } // the datagram comes round again: its own rules apply then
         seq_shift += shift_now;
         // after an inserted message the proxy renumbers the remaining clear-text messages of the server's flight
         if !from_client && seq_shift > 0 && (k == 2 || k == 11 || k == 12 || k == 14) {
@@ -546,6 +582,11 @@ pub async fn run_script_ticks(sc: &Script, max_ticks: u32) -> Option<Outcome> {
             if second_cert { fails.push(("auth:connected-with-unverified-certificate:second-certificate-message".to_string(), text.clone())); }
             fails.push((format!("role:client:connected-with-a-key-share-the-pinned-certificate-did-not-sign{}", if mitm_done { ":attacker-completed-the-handshake" } else { "" }), text.clone())); }
     } } }
+    // a clear-text record from a foreign address is as good as absent: the handshake around it completes and the endpoints keep
+    // talking to each other (a transport that follows the source address of such a datagram stops reaching its peer).
+    // Judged for application data at every stage and for alerts / handshake messages where the target holds keys.
+    if let Some((ct, k)) = third_party { if sc.rules.len() == 1 && (ct == 23 || matches!(k, 200 | 20)) && !(c.ep.letter() == 'C' && s.ep.letter() == 'C') {
+        fails.push((format!("rec:handshake-phase:third-party-record-disturbed-the-handshake:{ct}-before-{k}"), text.clone())); } }
     if foreign_cert_first && sc.rules.len() == 1 && c.ep.letter() != 'F' {
         fails.push((format!("role:client:non-matching-certificate-in-sequence-not-rejected:ended-{}", c.ep.letter()), text.clone())); }
     let _ = replaced_ske;
@@ -613,6 +654,18 @@ pub fn scripts(thorough: bool, rng: &mut Rng) -> Vec<Script> {
         // genuine / genuine twice, each followed by the attacker's own ServerKeyExchange; the attacker completes the handshake
         vec![r(false, 11, Act::InsertCert), r(false, 12, Act::AtkSke)], vec![r(false, 11, Act::InsertHsBefore(11)), r(false, 12, Act::AtkSke)],
         vec![r(false, 11, Act::RepeatSame), r(false, 12, Act::AtkSke)], vec![r(false, 12, Act::AtkSke)],
+        // a HelloVerifyRequest reaches the CLIENT (anybody can send one in clear text) at every stage before keys — alone, and
+        // followed by a foreign Certificate / by an attacker that owns the rest of the flight and completes the handshake
+        vec![r(false, 2, Act::PreInjectHs(3))], vec![r(false, 11, Act::PreInjectHs(3))], vec![r(false, 12, Act::PreInjectHs(3))], vec![r(false, 14, Act::PreInjectHs(3))],
+        vec![r(false, 2, Act::PreInjectHs(3)), r(false, 11, Act::CertOther)],
+        vec![r(false, 2, Act::PreInjectHs(3)), r(false, 11, Act::CertOther), r(false, 12, Act::AtkSke)],
+        vec![r(false, 11, Act::PreInjectHs(3)), r(false, 11, Act::CertOther), r(false, 12, Act::AtkSke)],
+        // the peer's certificate carries a key of another type (RSA-2048, P-384): pinned by the client, but nobody proves possession
+        vec![r(false, 0, Act::ImpostorKey(1))], vec![r(false, 0, Act::ImpostorKey(2))],
+        // clear-text records from a third source address during the handshake
+        vec![r(false, 2, Act::PreInject3(23))], vec![r(false, 14, Act::PreInject3(23))], vec![r(false, 200, Act::PreInject3(23))], vec![r(false, 200, Act::PreInject3(21))],
+        vec![r(false, 200, Act::PreInject3(22))], vec![r(false, 20, Act::PreInject3(23))], vec![r(true, 16, Act::PreInject3(23))], vec![r(true, 200, Act::PreInject3(23))],
+        vec![r(true, 20, Act::PreInject3(22))],
         // every message type offered to the role that never receives it, at the expected message_seq
         vec![r(true, 1, Act::PreInjectHs(3))], vec![r(true, 1, Act::PreInjectHs(14))],
         vec![r(true, 16, Act::PreInjectHs(3))], vec![r(true, 16, Act::PreInjectHs(14))], vec![r(true, 16, Act::PreInjectHs(2))],
